@@ -72,6 +72,9 @@ PATTERNS = {
     # every leaf has feature dims: an operation that reaches past the batch dims is not stopped by a rank-n leaf
     "wide": ([], {"b": [2, 3], "c": [3, 2]}),
     "widenest": ([], {"b": [2, 3], "n": ([2], {"x": [3, 2]})}),
+    # every entry has ZERO elements beyond the batch dims: torch calls on the entries cannot see a wrong number of
+    # batch elements (finding C02-o)
+    "zfeat": ([], {"a": [0], "b": [2, 0]}),
 }
 KEYID = {"a": 1, "b": 2, "n": 3, "x": 4, "y": 5, "m": 6, "z": 7, "c": 8}
 NAMES_MODES = ("none", "full", "part")
@@ -545,6 +548,24 @@ def operands(case):
 
 
 def make_operands(case, xs):
+    if case["op"] in MULTI_IN and case.get("full_entries"):
+        # operands whose ENTRIES all have the shapes of the longest declared batch shape, while the declared batch sizes
+        # differ in rank (a batch size may be any prefix of the entries' common leading dims): finding C02-p
+        torch = _T["torch"]
+        full = max(case["shapes"], key=len)
+        tds, off = [], 0
+        for sh in case["shapes"]:
+            x = torch.arange(prod(full), dtype=torch.long).reshape(full) + off
+            off += max(1, prod(full)) + 3
+            td = make_input(dict(case, bs=list(full)), idx=x)
+            if list(sh) != list(full):
+                if td.is_locked:
+                    td.unlock_()
+                td.batch_size = list(sh)
+                if case.get("locked"):
+                    td.lock_()
+            tds.append(td)
+        return tds
     if case["op"] in MULTI_IN:
         tds = []
         for x in xs:
@@ -1029,6 +1050,10 @@ def gen_multi(op, bs, rng, cap):
             if n >= 2:
                 C.append({"shapes": [list(bs), list(bs[:-1]) if prod(bs[:-1]) or len(bs) != 2 else list(bs) + [1]],
                           "args": {"dim": d, "sp": "fn"}, "out": None})
+    if op == "cat" and n >= 2:
+        for d in range(-n, n - 1):
+            C.append({"shapes": [list(bs), list(bs[:-1])], "args": {"dim": d, "sp": "fn"}, "out": None, "full_entries": True})
+            C.append({"shapes": [list(bs[:-1]), list(bs)], "args": {"dim": d, "sp": "fn"}, "out": None, "full_entries": True})
     if op == "cat":
         # torch.cat skips operands of shape exactly [0] (legacy); outside the property's vocabulary unless it is an
         # ordinary rank-1 concatenation
@@ -1057,8 +1082,8 @@ def config_for(rng, bs, op, shapes=None):
     if cont == "lazy" and (n == 0 or op not in LAZY_OPS
                            or not all(all(x in (2, 3) for x in s_) for s_ in (shapes or [bs]))):
         cont = "td"
-    pat = rng.choice(["flat", "flat", "nest0", "nest1", "nest1", "empty", "wide", "widenest"])
-    if cont == "tc" and pat in ("empty",):
+    pat = rng.choice(["flat", "flat", "nest0", "nest1", "nest1", "empty", "wide", "widenest", "zfeat"])
+    if cont == "tc" and pat in ("empty", "zfeat"):
         pat = "flat"
     c = {"cont": cont, "pat": pat, "names": rng.choice(NAMES_MODES) if cont != "lazy" else "none", "locked": rng.random() < 0.3}
     if cont == "tc" and op not in ("stack", "cat", "split"):
@@ -1083,6 +1108,12 @@ def gen_cases(rng, quick, budget):
             if op in MULTI_IN:
                 for m in gen_multi(op, bs, rng, cap):
                     cfg = config_for(rng, bs, op, m["shapes"])
+                    if m.get("full_entries"):
+                        cfg["cont"] = "td"
+                        cfg.pop("lazy_dim", None)
+                        cfg["names"] = "none"
+                        if cfg["pat"] == "empty":
+                            cfg["pat"] = "flat"
                     case = dict(cfg, op=op, bs=list(bs), **m)
                     if case["out"] is not None:
                         case["out_lazy_dim"] = rng.randrange(4)
@@ -1167,6 +1198,12 @@ def _leafless(case):
     return case["pat"] == "empty"
 
 
+def _zero_numel_entries(case):
+    """every entry has zero elements beyond the batch dims (pattern zfeat): the per-entry torch calls cannot see a
+    wrong number of batch elements, nor an index that is out of bounds (finding C02-o)"""
+    return case["pat"] == "zfeat"
+
+
 @pattern("split")
 def _p_split(case, a, bs, n, nd, f):
     d = nd(a["dim"])
@@ -1231,6 +1268,8 @@ def _p_view(case, a, bs, n, nd, f):
         return "-1-with-size-0-batch"
     if f == "accepts-illegal" and _leafless(case):
         return "leafless"
+    if f == "accepts-illegal" and _zero_numel_entries(case) and all(x >= 0 for x in a["shape"]) and prod(a["shape"]) != prod(bs):
+        return "zero-numel-entries,other-numel"
     return None
 
 
@@ -1280,6 +1319,8 @@ def _p_unflatten(case, a, bs, n, nd, f):
 def _p_gather(case, a, bs, n, nd, f):
     sh = a["ishape"]
     d = nd(a["dim"])
+    if f == "accepts-illegal" and _zero_numel_entries(case) and len(sh) == n and 0 <= d < n:
+        return "zero-numel-entries"
     if f == "accepts-illegal" and len(sh) < n and not _leafless(case):
         return "index-rank<batch-rank"
     if f == "accepts-illegal" and len(sh) > n and not _leafless(case):
@@ -1313,6 +1354,8 @@ def _p_cat(case, a, bs, n, nd, f):
             return "dim<-rank"
         if _leafless(case):
             return "leafless"
+        if case.get("full_entries") and any(len(s_) != n for s_ in case["shapes"]) and 0 <= nd(a["dim"]) < min(len(s_) for s_ in case["shapes"]):
+            return "operand-batch-ranks-differ,entries-agree"
     return None
 
 
@@ -1597,7 +1640,7 @@ def main(R):
 
 def complexity(c):
     shapes = c.get("shapes") or [c["bs"]]
-    return (len(shapes[0]), sum(sum(s) for s in shapes), len(shapes), {"flat": 0, "wide": 1, "empty": 1, "nest0": 2, "widenest": 3,
+    return (len(shapes[0]), sum(sum(s) for s in shapes), len(shapes), {"flat": 0, "wide": 1, "empty": 1, "zfeat": 1, "nest0": 2, "widenest": 3,
             "nest1": 4}[c["pat"]], c["cont"] != "td", c["names"] != "none", bool(c.get("locked")), len(json.dumps(c["args"])))
 
 
